@@ -48,8 +48,9 @@ type C11Mon struct {
 	withdrawn map[string]*big.Int
 	penalty   map[string]*big.Int
 	unstakes  map[string][]unstakeRec
-	bounded0  map[string]*big.Int // delegator -> withdrawable amount the history started with
-	lag       map[string]int      // validator -> consecutive blocks in which its own record disagreed with the delegation records
+	with      map[string]map[string]bool // delegator -> validators it has or had stake with
+	bounded0  map[string]*big.Int        // delegator -> withdrawable amount the history started with
+	lag       map[string]int             // validator -> consecutive blocks in which its own record disagreed with the delegation records
 	init      bool
 }
 
@@ -69,6 +70,34 @@ func get(m map[string]*big.Int, k string) *big.Int {
 		return new(big.Int)
 	}
 	return m[k]
+}
+
+func (m *C11Mon) note(deleg, val string) {
+	if m.with == nil {
+		m.with = map[string]map[string]bool{}
+	}
+	if m.with[deleg] == nil {
+		m.with[deleg] = map[string]bool{}
+	}
+	m.with[deleg][val] = true
+}
+
+// validatorsOf: the validators a delegator has (or had) stake with: from the successful STAKE transactions of the
+// history and from the delegation records of the dump (genesis stakes).
+func (m *C11Mon) validatorsOf(blk *hist.Block, deleg string) []string {
+	for _, st := range []hist.State{blk.Prev, blk.Cur} {
+		for k := range st {
+			if strings.HasPrefix(k, "st__e_") && strings.HasSuffix(k, "_"+deleg) {
+				m.note(deleg, strings.TrimSuffix(k[6:], "_"+deleg))
+			}
+		}
+	}
+	var out []string
+	for v := range m.with[deleg] {
+		out = append(out, v)
+	}
+	sort.Strings(out)
+	return out
 }
 
 // OnBlock feeds one block and returns violations of the C11 statement.
@@ -97,6 +126,7 @@ func (m *C11Mon) OnBlock(blk *hist.Block) []Finding {
 		amt := txAmount(t, "Stake")
 		switch t.Kind {
 		case "STAKE":
+			m.note(deleg, val)
 			addTo(m.staked, deleg, amt)
 			addTo(stakedNow, deleg, amt)
 			if Frozen(blk.Prev, val) && Frozen(blk.Cur, val) {
@@ -112,6 +142,13 @@ func (m *C11Mon) OnBlock(blk *hist.Block) []Finding {
 			addTo(m.withdrawn, deleg, amt)
 			if Frozen(blk.Prev, val) && Frozen(blk.Cur, val) {
 				out = append(out, Finding{"C11", "C11/frozen/WITHDRAW", fmt.Sprintf("block %d: WITHDRAW on validator %s succeeded although it is frozen before and after the block", blk.H, val)})
+			}
+			// whatever validator address the message names: the delegator's stake was with the validators the
+			// records (and the history) connect it to
+			for _, v := range m.validatorsOf(blk, deleg) {
+				if v != val && Frozen(blk.Prev, v) && Frozen(blk.Cur, v) {
+					out = append(out, Finding{"C11", "C11/frozen/WITHDRAW-naming-another-validator", fmt.Sprintf("block %d: %s withdrew %s naming %s as the validator, while validator %s, which its stake is (or was) with, is frozen before and after the block", blk.H, deleg, amt, val, v)})
+				}
 			}
 			matured := new(big.Int)
 			for _, u := range m.unstakes[deleg] {
@@ -209,6 +246,14 @@ func (m *C11Mon) OnBlock(blk *hist.Block) []Finding {
 			} else {
 				m.lag[v] = 0
 			}
+		} else if get(sum, v).Sign() > 0 {
+			// delegators have stake locked with a validator that has no record (so no power, no election)
+			m.lag[v]++
+			if m.lag[v] >= 6 {
+				out = append(out, Finding{"C11", "C11/validator-record-missing", fmt.Sprintf("block %d: delegators have %s locked with validator %s, which has had no validator record for six blocks", blk.H, get(sum, v), v)})
+			}
+		} else {
+			m.lag[v] = 0
 		}
 	}
 	return out
